@@ -1,7 +1,7 @@
 (* C10: s2m lists each record's runs; m2s is its exact inversion; independent of the interleaving. *)
 From Coq Require Import NArith ZArith List.
 From KT Require Import Gen.Generated Gen.Alphabet Gen.GeneratedFacts Model.Kmer Model.Ops Model.Rows Model.Pipeline.
-From KT Require Import Proof.ItemsSched Proof.ItemsTrace Proof.MinAbs Proof.MinSpec Proof.MinConc Proof.MinExt Proof.FileSpecProof.
+From KT Require Import Proof.ItemsSched Proof.ItemsTrace Proof.MinAbs Proof.MinSpec Proof.MinConc Proof.MinExt Proof.MinFast Proof.FileSpecProof.
 Import ListNotations.
 Open Scope N_scope.
 
@@ -30,7 +30,7 @@ Theorem C10_record_runs_are_spec_runs :
   Forall (fun b => 4 <= b < 256) s ->
   rec_runs w m s = rec_runs_spec w m s.
 Proof.
-  intros w m s Hm1 Hm Hw Hs. unfold rec_runs, rec_runs_spec.
+  intros w m s Hm1 Hm Hw Hs. unfold rec_runs, rec_runs_spec. rewrite spec_runs_fast_eq.
   assert (He : (1 <= m <= eff_w w m s)%nat).
   { unfold eff_w. destruct (Nat.eqb_spec w 0); [Lia.lia|]. destruct Hw; Lia.lia. }
   rewrite (mg_run_grp nt4m (eff_w w m s) m He Hm s).
